@@ -472,6 +472,13 @@ func (ch c08) runCase(c *core.Ctx, env *hs.Env, k c08case, idx int) {
 	in = append(in, pg.Bind("po", "st", k.PFmts, k.PRaw, k.RFmts)...)
 	in = append(in, pg.Describe('P', "po")...)
 	in = append(in, pg.Execute("po", 0)...)
+	twice := idx%3 == 0
+	if twice {
+		// the portal is executed a second time: it is still that Bind's portal (the handler's record
+		// compared below is the one of the last execution)
+		in = append(in, pg.Execute("po", 0)...)
+		c.Count("portals_executed_twice", 1)
+	}
 	in = append(in, pg.Sync()...)
 	out, closed := cl.Step(in)
 	if hangCheck(c, cl, cs) {
@@ -500,6 +507,9 @@ func (ch c08) runCase(c *core.Ctx, env *hs.Env, k c08case, idx int) {
 		want += "T2TDCZ"
 	} else {
 		want += "n2nCZ"
+	}
+	if twice {
+		want = strings.Replace(strings.Replace(want, "DCZ", "DCDCZ", 1), "nCZ", "nCCZ", 1)
 	}
 	if k.OddCodes {
 		c.Count("odd_code_counts", 1)
